@@ -53,10 +53,12 @@ const PEERS: [&str; 2] = ["A", "B"];
 // plus at most one SQLite statement), writes the result file with the violation and ends the
 // process.  (The spin after a stream closure is decided without a clock, see `VStream`.)
 // ------------------------------------------------------------------------------------------
-const WATCHDOG_SECS: u64 = 180;
+const WATCHDOG_SECS: u64 = 90;
 
 struct Watch {
     in_poll_since: Option<std::time::Instant>,
+    polled: usize,
+    run: Option<Shared>,
     case: Value,
     result_path: std::path::PathBuf,
     trace_path: Option<std::path::PathBuf>,
@@ -69,6 +71,8 @@ static WATCH: Mutex<Option<Watch>> = Mutex::new(None);
 fn watchdog_start(args: &Args) {
     *WATCH.lock().unwrap() = Some(Watch {
         in_poll_since: None,
+        polled: 0,
+        run: None,
         case: Value::Null,
         result_path: args.result_path(),
         trace_path: if args.mode == "record" { args.out.clone() } else { None },
@@ -91,6 +95,28 @@ fn watchdog_start(args: &Args) {
                 "detail": format!("one poll of LogSync::run has not returned for {WATCHDOG_SECS} s: busy loop without an await"),
                 "case": w.case}],
         });
+        let mut result = result;
+        // C20: a session that is in State::Sync, has not written Done and never will
+        if let Some(sh) = w.run.as_ref() {
+            if let Ok(sh) = sh.try_lock() {
+                let p = w.polled;
+                if sh.taken[p] >= 2 && !sh.sent[p].contains(&"Done") {
+                    result["violations"].as_array_mut().unwrap().push(json!({
+                        "property": "C20", "signature": "c20:done-never-sent",
+                        "detail": format!("peer {} wrote {:?} and then loops forever without writing Done", PEERS[p], sh.sent[p]),
+                        "case": w.case}));
+                }
+            }
+        }
+        // what the main thread had reported before it got stuck
+        if let Some(earlier) = REPORTED.lock().unwrap().as_ref() {
+            let vs = result["violations"].as_array_mut().unwrap();
+            for v in earlier {
+                vs.push(v.clone());
+            }
+            let n = vs.len();
+            result["violations_total"] = json!(n);
+        }
         std::fs::write(&w.result_path, serde_json::to_vec_pretty(&result).unwrap()).ok();
         if let Some(t) = &w.trace_path {
             std::fs::write(t, b"").ok();
@@ -106,9 +132,18 @@ fn watchdog_case(case: &Value) {
     }
 }
 
-fn watchdog_poll(on: bool) {
+fn watchdog_poll(on: Option<usize>) {
     if let Some(w) = WATCH.lock().unwrap().as_mut() {
-        w.in_poll_since = if on { Some(std::time::Instant::now()) } else { None };
+        w.in_poll_since = on.map(|_| std::time::Instant::now());
+        if let Some(p) = on {
+            w.polled = p;
+        }
+    }
+}
+
+fn watchdog_run(sh: &Shared) {
+    if let Some(w) = WATCH.lock().unwrap().as_mut() {
+        w.run = Some(sh.clone());
     }
 }
 
@@ -193,12 +228,16 @@ type Content = BTreeMap<(usize, usize), Vec<u32>>;
 /// `Outcome` keeps only the first 20 violations: report every failure class (property, signature)
 /// once, so that the recorded deadlock class cannot crowd out anything else; count the rest.
 static SEEN: Mutex<Option<std::collections::BTreeSet<(String, String)>>> = Mutex::new(None);
+/// copy of the reported violations for the watchdog thread
+static REPORTED: Mutex<Option<Vec<Value>>> = Mutex::new(None);
 
 fn report(out: &mut Outcome, property: &str, signature: &str, detail: String, case: Value) {
     let mut g = SEEN.lock().unwrap();
     let seen = g.get_or_insert_with(Default::default);
     out.count(&format!("violation:{property}:{signature}"));
     if seen.insert((property.to_string(), signature.to_string())) {
+        REPORTED.lock().unwrap().get_or_insert_with(Vec::new).push(
+            json!({"property": property, "signature": signature, "detail": detail, "case": case}));
         out.violation(property, signature, detail, case);
     }
 }
@@ -273,6 +312,8 @@ struct Sh {
     last_put: [&'static str; 2],
     sent: [Vec<&'static str>; 2],
     delivered: [Vec<OpId>; 2],
+    /// messages taken from the inbound stream (>= 2: the session is in State::Sync)
+    taken: [usize; 2],
     log: Vec<Value>,
 }
 
@@ -490,6 +531,7 @@ impl Stream for VStream {
             }
             sh.consume(p);
             let m = sh.chan[q].pop_front().unwrap();
+            sh.taken[p] += 1;
             let mj = sh.world.msg_json(&m);
             sh.log.push(json!({"ev": "Recv", "p": PEERS[p], "m": mj}));
             return Poll::Ready(Some(Ok(m)));
@@ -571,8 +613,10 @@ impl Run {
             last_put: ["", ""],
             sent: [Vec::new(), Vec::new()],
             delivered: [Vec::new(), Vec::new()],
+            taken: [0; 2],
             log: Vec::new(),
         }));
+        watchdog_run(&sh);
         let mut futs: Vec<Option<SessFut>> = Vec::new();
         let mut rxs = Vec::new();
         for p in 0..2 {
@@ -654,9 +698,9 @@ impl Run {
                 s.blocked_recv[p] = false;
             }
             let f = fut.as_mut().unwrap();
-            watchdog_poll(true);
+            watchdog_poll(Some(p));
             let polled = f.as_mut().poll(cx);
-            watchdog_poll(false);
+            watchdog_poll(None);
             match polled {
                 Poll::Ready(r) => {
                     *fut = None;
@@ -892,7 +936,16 @@ fn direct_checks(run: &Run, cfg: &Config, mutated: bool, crashed: bool, out: &mu
         report(out, "C21", &sig, format!("sessions never complete: cap {} ; A waits in {}, B waits in {}",
             cfg.cap, run.blocked_where(0), run.blocked_where(1)), case.clone());
     }
+    // C20: a session in State::Sync that waits for the remote although it has not written Done
+    // (between send bursts the select! never waits: waiting means nothing is left to send)
+    let waiting_in_recv: Vec<bool> = (0..2).map(|p| stuck && run.active(p) && run.blocked_where(p) == "recv").collect();
     let sh = run.sh.lock().unwrap();
+    for p in 0..2 {
+        if waiting_in_recv[p] && sh.taken[p] >= 2 && !sh.sent[p].contains(&"Done") {
+            report(out, "C20", "c20:done-never-sent",
+                format!("peer {} wrote {:?}, has nothing left to send and waits for the remote without having written Done", PEERS[p], sh.sent[p]), case.clone());
+        }
+    }
     for p in 0..2 {
         if sh.spin[p] {
             out.count("spins");
@@ -1289,7 +1342,7 @@ async fn record_one(
     run.push(json!({"ev": "Start", "p": "B"}));
     let mut muts_left = match focus {
         "c20" => rng.range(1, 3),
-        "c21" => rng.below(2),
+        "c21" => if rng.chance(2, 3) { rng.range(1, 2) } else { 0 },
         _ => 0,
     };
     let mut crash_left = focus == "c21" && rng.chance(1, 4);
@@ -1312,7 +1365,7 @@ async fn record_one(
         if muts_left > 0 && rng.chance(if early { 3 } else { 1 }, 6) {
             let p = mp;
             let mut keys: Vec<(usize, usize)> = cfg.slogs[p].clone();
-            if early || rng.chance(1, 2) {
+            if early || focus == "c21" || rng.chance(1, 2) {
                 // logs this replica has data of
                 let with_rows: Vec<(usize, usize)> = keys.iter().copied().filter(|k| now[p].get(k).map(|r| !r.is_empty()).unwrap_or(false)).collect();
                 if !with_rows.is_empty() {
@@ -1323,7 +1376,7 @@ async fn record_one(
                 let (a, l) = *rng.pick(&keys);
                 let rows = now[p].get(&(a, l)).cloned().unwrap_or_default();
                 let choice = rng.below(3);
-                let m: Option<(&str, u32)> = if (choice == 0 || (early && choice == 2)) && !rows.is_empty() {
+                let m: Option<(&str, u32)> = if (choice == 0 || ((early || focus == "c21") && choice == 2)) && !rows.is_empty() {
                     // prune below a point, often the whole log
                     let top = *rows.iter().max().unwrap();
                     let low = *rows.iter().min().unwrap();
